@@ -92,7 +92,7 @@ def chains(tier, rnd):
                 new = c if how == "same" else f"{c}_r{len(stmts)}"
                 items.append(f"x.{c}" + (f" as {new}" if new != c else ""))
                 tables[tgt][new] = {(src, c)}
-            kw = rnd.choice(["create table {t} as", "insert into {t}", "create view {t} as"]).format(t=tgt)
+            kw = rnd.choice(["create table {t} as", "insert into {t}", "create view {t} as", "create or replace table {t} as", "create or replace view {t} as"]).format(t=tgt)
             # an incremental loader also reads its own target in a predicate
             # (through a column the loader itself writes: reading any other column would say the table has that one too)
             first_new = cols[0] if how == "same" else f"{cols[0]}_r{len(stmts)}"
